@@ -18,6 +18,15 @@ pub type Substitutions = HashMap<String, (Datum, Vec<Datum>)>;
 pub uninterp spec fn match_res(p: SyntaxPattern, d: Datum, literals: HashSet<String>) -> Result<bool, SchemeError>;
 /// the bindings a successful match produces
 pub uninterp spec fn subst_of(p: SyntaxPattern, d: Datum, literals: HashSet<String>) -> Substitutions;
+/// what a successful match leaves in a table that already held `before`: the matcher only INSERTS bindings,
+/// it never clears the table (so stale bindings of an earlier, failed rule would survive)
+pub uninterp spec fn merge_subst(before: Substitutions, bindings: Substitutions) -> Substitutions;
+/// ... and into an empty table that is exactly the bindings of the match
+#[verifier::external_body]
+pub proof fn axiom_merge_into_empty(before: Substitutions)
+    requires before@.len() == 0,
+    ensures forall|bindings: Substitutions| #[trigger] merge_subst(before, bindings) == bindings,
+{}
 /// the template filled with bindings
 pub uninterp spec fn expansion(t: SyntaxTemplate, s: Substitutions) -> Result<Vec<Datum>, SchemeError>;
 pub uninterp spec fn is_macro_mismatch(e: SchemeError) -> bool;
@@ -51,7 +60,8 @@ impl SyntaxPattern {
                        substitutions: &mut Substitutions) -> (r: Result<bool, SchemeError>)
         ensures
             r == match_res(*self, *datum, *pattern_literals),
-            r == Ok::<bool, SchemeError>(true) ==> *final(substitutions) == subst_of(*self, *datum, *pattern_literals),
+            r == Ok::<bool, SchemeError>(true) ==>
+                *final(substitutions) == merge_subst(*old(substitutions), subst_of(*self, *datum, *pattern_literals)),
     { unimplemented!() }
     /// `pattern.location` (field of Located<SyntaxPatternBody>) -- only used for the error location
     #[verifier::external_body]
@@ -82,7 +92,8 @@ UNIT = {
     "trusted": {
         "Datum": "opaque type (X2)", "SyntaxPattern": "opaque type (X2)", "SyntaxTemplate": "opaque type (X2)",
         "SchemeError": "opaque type (X2); the MacroMissMatch / TransformOutMultipleDatum kinds are uninterpreted predicates",
-        "match_datum": "ASSUMED CONTRACT: the matcher is the uninterpreted relation match_res / subst_of (its own correctness is not decided here)",
+        "match_datum": "ASSUMED CONTRACT: the matcher is the uninterpreted relation match_res / subst_of and only ADDS its bindings to the table it is given (its own correctness is not decided here)",
+        "axiom_merge_into_empty": "part of that assumed contract: bindings added to an empty table are exactly the bindings",
         "location_of": "X6: `pattern.location` read through an opaque getter (error location only)",
         "substitude": "ASSUMED CONTRACT: the template filler is the uninterpreted function expansion",
         "multiple_datum_error": "X6: located_error!(SyntaxError::TransformOutMultipleDatum, ..) builds an error of that kind",
@@ -100,6 +111,8 @@ UNIT = {
                  ("X6", r"error!\(SyntaxError::MacroMissMatch\(keyword\.to_string\(\), datum\)\)",
                   "macro_mismatch_error(keyword, datum)", 0),
              ],
+             "inserts": [(r"let mut substitutions = HashMap::new\(\);",
+                          "            proof { if substitutions@.len() == 0 { axiom_merge_into_empty(substitutions); } }")],
              "contract": "        ensures transform_post(*self, datum, r, 0),",
              "loops": {1: {"expect_kw": "for",
                            "iter_name": "it",
